@@ -73,8 +73,8 @@ type (
 		Vars   []QVar
 		Body   Expr
 	}
-	EOld  struct{ X Expr }
-	EIs   struct {
+	EOld struct{ X Expr }
+	EIs  struct {
 		X    Expr
 		Type string
 	}
@@ -174,7 +174,7 @@ type sparser struct {
 }
 
 func (p *sparser) peek() tok { return p.toks[p.pos] }
-func (p *sparser) next() tok  { t := p.toks[p.pos]; p.pos++; return t }
+func (p *sparser) next() tok { t := p.toks[p.pos]; p.pos++; return t }
 func (p *sparser) isOp(s string) bool {
 	t := p.peek()
 	return t.kind == "op" && t.s == s
@@ -453,9 +453,10 @@ type Clause struct {
 	Tags  []string // property ids; empty = always
 	Text  string
 	E     Expr
-	Loop  string // for invariants: loop key (ordinal or label)
-	Ord   int    // ordinal within kind (1-based) for naming
-	Where string // file:line
+	Loop  string                                      // for invariants: loop key (ordinal or label)
+	Ord   int                                         // ordinal within kind (1-based) for naming
+	Where string                                      // file:line
+	Auto  func(get func(v interface{}) string) string // inferred invariant over SSA values
 }
 
 type Define struct {
@@ -493,6 +494,9 @@ type Contract struct {
 	Schema    []string
 	Props     map[string]bool // all tags mentioned
 	Where     string
+	Frames    []*Clause // two-state (old/new) transitive properties of a callback, assumed across the library call
+	Each      []*Clause // "each q :: P(q)": established for tid(key) by every callback invocation, stable
+	EachVar   []string
 	Fresh     bool // result is a fresh allocation (lib)
 	NoAlloc   bool
 	Opaque    bool
@@ -505,6 +509,7 @@ type SpecDB struct {
 	UFuns     map[string]*UFun
 	Ghosts    map[string]string // name -> sort text
 	FieldInvs []*FieldInv
+	NewInvs   []*FieldInv // facts about freshly allocated (zero) values of library types
 	Axioms    []*Clause
 	// statistics for the evidence
 	NLibEntries, NAssume, NAxiom int
@@ -649,6 +654,14 @@ func (db *SpecDB) loadFile(path string, lib bool) error {
 			db.Axioms = append(db.Axioms, &Clause{Kind: "axiom", Tags: tags, Text: txt, E: e, Where: where})
 			db.NAxiom++
 			cur = nil
+		case "newinv":
+			tn, txt := splitWord(rest)
+			e, err := parseSpecExpr(txt)
+			if err != nil {
+				return fail(err)
+			}
+			db.NewInvs = append(db.NewInvs, &FieldInv{Type: tn, E: e, Text: txt})
+			cur = nil
 		case "fieldinv":
 			tf, txt := splitWord(rest)
 			dot := strings.LastIndex(tf, ".")
@@ -719,6 +732,32 @@ func (db *SpecDB) loadFile(path string, lib bool) error {
 						}
 						cur.Modifies = append(cur.Modifies, e)
 					}
+				}
+			case "frame":
+				tags, txt := parseTags(rest)
+				e, err := parseSpecExpr(txt)
+				if err != nil {
+					return fail(err)
+				}
+				cur.Frames = append(cur.Frames, &Clause{Kind: "frame", Tags: tags, Text: txt, E: e, Where: where, Ord: len(cur.Frames) + 1})
+				for _, t := range tags {
+					cur.Props[t] = true
+				}
+			case "each":
+				tags, txt := parseTags(rest)
+				i := strings.Index(txt, "::")
+				if i < 0 {
+					return fail(fmt.Errorf("each: expected 'q :: expr'"))
+				}
+				e, err := parseSpecExpr(strings.TrimSpace(txt[i+2:]))
+				if err != nil {
+					return fail(err)
+				}
+				c := &Clause{Kind: "each", Tags: tags, Text: txt, E: e, Where: where, Ord: len(cur.Each) + 1}
+				cur.Each = append(cur.Each, c)
+				cur.EachVar = append(cur.EachVar, strings.TrimSpace(txt[:i]))
+				for _, t := range tags {
+					cur.Props[t] = true
 				}
 			case "pure":
 				cur.Pure = true
